@@ -190,7 +190,9 @@ class Check:
         if base is not None:
             missing = sorted(set(base) - set(ids))
         n_obl = len(self.obls)
-        n_dis = sum(1 for o in self.obls if o["verdict"] == DISCHARGED)
+        # a known finding is an obligation re-stated as "the refutation is exactly the recorded one" (key match),
+        # which is discharged by that match; any other refutation of the same obligation is a VIOLATION
+        n_dis = sum(1 for o in self.obls if o["verdict"] == DISCHARGED) + len(known_hits)
         wall = round(time.time() - self.t0, 2)
         ev = {
             "property_id": self.prop,
@@ -232,14 +234,14 @@ class Check:
               f"known-findings={len(known_hits)} violations={violations} undecided={len(undecided)} "
               f"errors={len(errors)} canaries={self.canaries_refuted}/{self.canaries} wall={wall}s")
         sys.stdout.flush()
+        for o in errors:
+            print(f"CHECKER-ERROR: obligation {o['id']}: {o['detail'][-1500:]}")
         if violations:
             return 1
         if self.crashed:
             print(f"CHECKER-ERROR: {self.crashed}")
             return 3
         if errors:
-            for o in errors:
-                print(f"CHECKER-ERROR: obligation {o['id']}: {o['detail'][-1500:]}")
             return 3
         if self.canaries_refuted != self.canaries:
             print("CHECKER-ERROR: not every canary was refuted: " + "; ".join(self.notes))
